@@ -26,6 +26,10 @@ import (
 
 const sigC40Boundary = "C40/sample-lost-at-output-chunk-boundary"
 
+// sigC40ZeroSample: toChunk took "last sample is (t=0, v=0)" for "no sample in the range" and dropped
+// the whole aggregate of that output chunk (repaired: it asks the chunk for its sample count).
+const sigC40ZeroSample = "C40/zero-sample-taken-for-empty-range"
+
 // sigC40CounterLead: counter chunks as the downsampler really writes them begin with the first raw
 // value of their batch at its raw timestamp (before the first window timestamp). The five aggregates
 // are deduplicated independently, and the extra leading sample gives the counter iterator another
@@ -233,9 +237,26 @@ func c40RegressLead() string {
 	return msg
 }
 
+// c40RegressZero: two identical replicas with the single window timestamp 0; the counter value there is 0.
+func c40RegressZero() string {
+	full := [5]bool{true, true, true, true, true}
+	msg, _, _ := checkC40([]aggSeries{
+		{ts: []int64{0}, cuts: []int{1}, mask: full, lead: -1},
+		{ts: []int64{0}, cuts: []int{1}, mask: full, lead: -1},
+	})
+	return msg
+}
+
 func TestVerifC40(t *testing.T) {
 	rec := kit.For(t, "C40")
 	known := kit.KnownFindings("C40")
+	if msg := c40RegressZero(); msg != "" {
+		if known[sigC40ZeroSample] {
+			rec.Known(sigC40ZeroSample, "two replicas with one window at t=0 and counter value 0: "+msg)
+		} else {
+			rec.Violation(t, "regression zero-sample: %s", msg)
+		}
+	}
 	if msg := c40RegressLead(); msg != "" {
 		if known[sigC40CounterLead] {
 			rec.Known(sigC40CounterLead, "replica A {450000}, replica B {300000, 900000} with the counter chunk starting with the raw value at 150000: "+msg)
@@ -268,7 +289,11 @@ func TestVerifC40(t *testing.T) {
 			maxN = 120 / nser
 			rec.Excluded(sigC40Boundary)
 		}
-		base := res * int64(rapid.IntRange(1, 1000).Draw(rt, "base"))
+		// timestamps at and below zero are legal in TSDB (a block starting at the epoch, backfilled data)
+		base := res * int64(rapid.SampledFrom([]int{0, 0, -1, -3, -130, 1, 1, 7, 500, 1000}).Draw(rt, "base"))
+		if rapid.Bool().Draw(rt, "freeBase") {
+			base = res * int64(rapid.IntRange(-200, 1000).Draw(rt, "baseK"))
+		}
 		var series []aggSeries
 		for i := 0; i < nser; i++ {
 			off := int64(0)
